@@ -381,7 +381,7 @@ def explore(ctx, factor, bs):
     if factor == 1:
         for els in directed_forms():
             form_case(ctx, els)
-    n = ctx.pick(900, 30000) * factor
+    n = ctx.pick(2000, 40000) * factor
     for _ in range(n):
         g = F.Gen(rng, big=not ctx.quick())
         form_case(ctx, g.tree())
